@@ -43,6 +43,11 @@ func NewUnpackInfo(dst string, header *tar.Header) (UnpackInfo, error) {
 	if !strings.HasPrefix(target, dst) {
 		return UnpackInfo{}, errors.New("invalid filename, traversal with \"..\" outside of current directory")
 	}
+	// A textual prefix is not enough: a sibling of dst whose name merely starts
+	// with dst's name (e.g. "/tmp/dst-other" for dst "/tmp/dst") must be rejected too.
+	if rel, err := filepath.Rel(dst, target); err != nil || rel == ".." || strings.HasPrefix(rel, ".."+string(filepath.Separator)) {
+		return UnpackInfo{}, errors.New("invalid filename, traversal with \"..\" outside of current directory")
+	}
 
 	// Ensure the destination is not through any symlinks. This prevents
 	// any files from being deployed through symlinks defined in the slug.
